@@ -13,6 +13,9 @@ import gramgen
 import runmodel as rm
 
 SEEDS = [
+    # a left-recursive leader whose seed is truthy but whose later growth round gets further and yields a FALSY value: the
+    # growing wrapper must put the cursor back to where the last good seed ended
+    "start: e NEWLINE | e '-' NUMBER NEWLINE\ne: e '-' NUMBER { 0 } | NUMBER { 1 }\n",
     "start: [neg] NAME '+' NEWLINE\nneg: '-' ~ NUMBER '+'\n",
     "start: item+ NEWLINE\nitem: NAME !'=' | NAME '=' NUMBER\n",
     "start: expr NEWLINE\nexpr: expr '+' term | term\nterm: term '*' NUMBER | NUMBER\n",
@@ -116,7 +119,7 @@ def run(chk: common.Check, tier: str):
     import dataclasses
     texts += list(gramgen.gen_grammars(r, dataclasses.replace(kn, terminals=("NAME", "SOFT_KEYWORD", "STRING", "OP", "NUMBER", '"soft"', "'kw'", "'+'", "NEWLINE")), 12 if tier == "quick" else 150))
     nin = 25 if tier == "quick" else 120
-    extra = ["x = 1 # type: int\n", "x = 1 # type: int\ny\n", "x = 1\n", "x = 1 y\n", "x\ny\n", "x y\n"]
+    extra = ["1 - 1\n", "1 - 1 - 1\n", "1\n", "x = 1 # type: int\n", "x = 1 # type: int\ny\n", "x = 1\n", "x = 1 y\n", "x\ny\n", "x y\n"]
     pairs = rm.krun(chk, "C05", texts, lambda t: A.inputs_upto(A.alphabet(t), 3, nin) + (extra if t in SEEDS else []),
                     configs=("q1", "q0", "v1", "v0"))
     for t, rj in pairs:
@@ -129,6 +132,24 @@ def run(chk: common.Check, tier: str):
                     chk.violation(v, {"grammar": t, "tokens": one["tokens"], "configuration": cfg, "problem": v,
                                       "how": "every method of the generated parser wrapped from outside (harness/trace_runner.py)"}, True)
         chk.sample({"grammar": t[:200], "inputs": len(rj["results"])}, 3)
+    # the second pass (error mode on): repeated invalid_ rules that RETURN a value -- their loop helpers get the UNREACHABLE
+    # filler as action -- must keep what they consumed and restore the cursor on failure like every other method
+    # (the alternatives that mention them carry an explicit truthy action: a BARE one gets the falsy UNREACHABLE filler,
+    # the territory of the recorded falsy-action finding)
+    etexts = ["start: a=invalid_x* b=NUMBER NEWLINE { foo(a, b) } | NAME* '!'* NUMBER NEWLINE\ninvalid_x: n=NAME '!' { foo(n) }\n",
+              "start: a NEWLINE\na: x=invalid_x+ NUMBER { foo(x) } | NAME+ NUMBER\ninvalid_x: n=NAME { foo(n) }\n",
+              "start: x=(invalid_x)* NUMBER NEWLINE { foo(x) } | NAME* NUMBER NEWLINE\ninvalid_x: n=NAME { foo(n) }\n",
+              "start: x=','.invalid_x+ NUMBER NEWLINE { foo(x) } | ','.NAME+ NUMBER NEWLINE\ninvalid_x: n=NAME { foo(n) }\n"]
+    eins = ["x ! y ! 1\n", "x y 1\n", "1\n", "x 1\n", "x ! 1\n", "x , y 1\n", "x y\n", "x !\n"]
+    epairs = rm.krun(chk, "C05", etexts, lambda t: eins, configs=("q1", "q0"), call_invalid=True, want_cases=False)
+    for t, rj in epairs:
+        for one in rj["results"]:
+            for cfg, x in one["runs"].items():
+                ev = x.get("events") or []
+                chk.note_case((t, json.dumps(one["tokens"]), cfg, "error mode"))
+                for v in violations_in(ev)[:1]:
+                    chk.violation(v + " (error mode on)", {"grammar": t, "tokens": one["tokens"], "configuration": cfg, "problem": v,
+                                  "error_mode": True}, True)
     # known finding: explicit falsy action after consuming
     res = rm.run_traced([{"grammar": KF_GRAMMAR, "inputs": ["x y\n"], "configs": ["q1"]}])[0]
     if "results" in res:
